@@ -85,6 +85,8 @@ func (d *qeDom) Gen(r *gen.R, tier string, emit func(string)) {
 		emit(wire.Line("serial", strconv.Itoa(1+i%3)))
 		emit(wire.Line("reset"))
 		emit(wire.Line("queued", strconv.Itoa(1+i%3)))
+		emit(wire.Line("reset"))
+		emit(wire.Line("lateenq", strconv.Itoa(1+i%3)))
 	}
 	emit(wire.Line("reset"))
 }
@@ -321,7 +323,7 @@ func (d *qeDom) Exec(a []string) string {
 				return "no-query-subject"
 			}
 			return "ok"
-		case "serial", "queued":
+		case "serial", "queued", "lateenq":
 			d.Close()
 			return qeScenario(a)
 		case "req":
